@@ -24,6 +24,9 @@ enum Extra {
 enum Scenario {
     Perm { kind: Kind, n: usize, perm: Vec<usize>, extra: Extra, pos: usize, burst: bool },
     Batch { kind: Kind, n: usize, perm: Vec<usize> },
+    /// the blocking Client over real loopback TCP: n caller threads, scripted peer
+    PermBlocking { n: usize, perm: Vec<usize>, extra: Extra, pos: usize },
+    BatchBlocking { n: usize, perm: Vec<usize> },
     /// reply delivered after only `header + k` bytes of the (large) request were accepted
     Early { k: usize, queued_behind: bool },
 }
@@ -78,6 +81,22 @@ fn scenarios(tier: Tier) -> Vec<Scenario> {
             for perm in permutations(n) {
                 v.push(Scenario::Batch { kind, n, perm });
             }
+        }
+    }
+    for n in 1..=tier.pick(4, 5) {
+        for perm in permutations(n) {
+            let mut extras = vec![Extra::None, Extra::Unknown];
+            for j in 0..n {
+                extras.push(Extra::Dup(j));
+                extras.push(Extra::NotifyReuse(j));
+            }
+            for extra in extras {
+                let positions = if extra == Extra::None { 0..1 } else { 0..n + 1 };
+                for pos in positions {
+                    v.push(Scenario::PermBlocking { n, perm: perm.clone(), extra, pos });
+                }
+            }
+            v.push(Scenario::BatchBlocking { n, perm });
         }
     }
     for k in [0usize, 1, 2, 3, 10, 100, 8192 - 48, 8192 - 47, 19000] {
@@ -267,6 +286,119 @@ async fn run_early(k: usize, queued_behind: bool) -> (Bad, u64) {
     (bad, flags)
 }
 
+
+// ------------------------------------------------------------------ blocking Client over TCP
+
+fn read_requests(s: &mut std::net::TcpStream, n: usize) -> Result<Vec<crate::frames::Frame>, String> {
+    use std::io::Read;
+    let mut buf = Vec::new();
+    let mut out = Vec::new();
+    let mut chunk = [0u8; 4096];
+    while out.len() < n {
+        loop {
+            match crate::frames::parse_one(&buf)? {
+                Some((f, k)) => {
+                    out.push(f);
+                    buf.drain(..k);
+                }
+                None => break,
+            }
+        }
+        if out.len() >= n {
+            break;
+        }
+        match s.read(&mut chunk) {
+            Ok(0) => return Err(format!("peer saw EOF after {} of {n} requests", out.len())),
+            Ok(k) => buf.extend_from_slice(&chunk[..k]),
+            Err(e) => return Err(format!("peer read: {e} after {} of {n} requests", out.len())),
+        }
+    }
+    Ok(out)
+}
+
+fn run_perm_blocking(n: usize, perm: &[usize], extra: Extra, pos: usize, batch: bool) -> (Bad, u64) {
+    use std::io::Write;
+    let mut bad = Bad::new();
+    let ctx = format!("blocking Client n={n} reply order {perm:?} extra {extra:?}@{pos} batch={batch}");
+    let listener = std::net::TcpListener::bind("127.0.0.1:0").expect("bind");
+    let addr = listener.local_addr().unwrap();
+    let client = match repe::Client::connect(addr) {
+        Ok(c) => c,
+        Err(e) => return (vec![("C04:harness".into(), format!("connect: {e}"))], 0),
+    };
+    let (mut peer, _) = listener.accept().expect("accept");
+    peer.set_read_timeout(Some(std::time::Duration::from_secs(10))).ok();
+    let tags: Vec<u64> = (0..n as u64).map(|i| 100 + i).collect();
+    let t = std::time::Duration::from_secs(10);
+    let callers: Vec<std::thread::JoinHandle<Vec<Res>>> = if batch {
+        let c = client.clone();
+        let reqs: Vec<(String, Value)> = tags.iter().map(|t| ("/p".to_string(), json!({"t": t}))).collect();
+        vec![std::thread::spawn(move || c.batch_json_with_timeout(reqs, t).into_iter().map(clients::classify).collect())]
+    } else {
+        tags.iter()
+            .map(|tag| {
+                let c = client.clone();
+                let tag = *tag;
+                std::thread::spawn(move || vec![clients::classify(c.call_json_with_timeout("/p", &json!({"t": tag}), t))])
+            })
+            .collect()
+    };
+    let reqs = match read_requests(&mut peer, n) {
+        Ok(r) => r,
+        Err(e) => {
+            bad.push(("C04:requests-missing".into(), format!("{ctx}: {e}")));
+            drop(peer);
+            for h in callers {
+                let _ = h.join();
+            }
+            return (bad, 0);
+        }
+    };
+    let ids = clients::tag_ids(&reqs);
+    let mut distinct: Vec<u64> = ids.values().copied().collect();
+    distinct.sort();
+    distinct.dedup();
+    if distinct.len() != n {
+        bad.push(("C04:duplicate-request-id".into(), format!("{ctx}: request ids are not distinct: {ids:?}")));
+    }
+    let mut script: Vec<crate::frames::Frame> = perm.iter().filter_map(|i| ids.get(&tags[*i]).map(|id| clients::reply(*id))).collect();
+    let mut consumed_by_notify: Option<u64> = None;
+    match extra {
+        Extra::None => {}
+        Extra::Unknown => script.insert(pos.min(script.len()), clients::reply(0xDEAD_BEEF)),
+        Extra::Dup(j) => script.insert(pos.min(script.len()), clients::reply(ids[&tags[j]])),
+        Extra::NotifyReuse(j) => {
+            script.insert(pos.min(script.len()), clients::notify_frame(ids[&tags[j]], 7));
+            let real_pos = perm.iter().position(|x| *x == j).unwrap();
+            if pos <= real_pos {
+                consumed_by_notify = Some(tags[j]);
+            }
+        }
+    }
+    for f in &script {
+        let _ = peer.write_all(&f.to_bytes());
+    }
+    let mut results: Vec<Res> = Vec::new();
+    for h in callers {
+        results.extend(h.join().unwrap_or_else(|_| vec![Res::Err("caller panicked".into())]));
+    }
+    for (i, r) in results.iter().enumerate() {
+        let own = ids.get(&tags[i]).copied().unwrap_or(0);
+        match (r, consumed_by_notify) {
+            (Res::Id(got), _) if *got == own => {}
+            (Res::OkOther(_), Some(t)) if t == tags[i] => {}
+            _ => bad.push((
+                format!("C04:wrong-response:{}", match r { Res::Timeout => "hang", Res::Id(_) => "other-calls-response", _ => "error" }),
+                format!("{ctx}: call #{i} (request id {own}) returned {r:?}"),
+            )),
+        }
+    }
+    if results.len() != n {
+        bad.push(("C04:batch-length".into(), format!("{ctx}: {} results for {n} requests", results.len())));
+    }
+    (bad, if batch { 64 } else { 32 })
+}
+
 pub fn run(tier: Tier) -> ! {
     let ctx = Ctx::new("C04", tier);
     let all = scenarios(tier);
@@ -287,10 +419,12 @@ pub fn run(tier: Tier) -> ! {
                     Scenario::Perm { kind, n, perm, extra, pos, burst } => run_perm(*kind, *n, perm, *extra, *pos, *burst).await,
                     Scenario::Batch { kind, n, perm } => run_batch(*kind, *n, perm).await,
                     Scenario::Early { k, queued_behind } => run_early(*k, *queued_behind).await,
+                    Scenario::PermBlocking { n, perm, extra, pos } => run_perm_blocking(*n, perm, *extra, *pos, false),
+                    Scenario::BatchBlocking { n, perm } => run_perm_blocking(*n, perm, Extra::None, 0, true),
                 }
             });
             *n += 1;
-            for bit in 0..6 {
+            for bit in 0..8 {
                 if flags & (1 << bit) != 0 {
                     *flagc.entry(bit).or_insert(0) += 1;
                 }
@@ -317,7 +451,7 @@ pub fn run(tier: Tier) -> ! {
         ctx.violation(k, w, json!({"scenario": format!("{:?}", all[i]), "index": i, "tier": tier.name()}));
     }
     let g = |b: u64| flagc.get(&b).copied().unwrap_or(0);
-    if !ctx.has_violation() && (g(0) == 0 || g(2) == 0 || g(3) == 0 || g(4) == 0) {
+    if !ctx.has_violation() && (g(0) == 0 || g(2) == 0 || g(3) == 0 || g(4) == 0 || g(5) == 0 || g(6) == 0) {
         ctx.machinery("vacuous exploration: a scenario family never ran");
     }
     let coverage = json!({
@@ -333,8 +467,10 @@ pub fn run(tier: Tier) -> ! {
             "notifies_routed_to_subscriber": g(2),
             "batch_scenarios": g(3),
             "replies_overtaking_a_blocked_write": g(4),
+            "blocking_client_tcp_scenarios": g(5),
+            "blocking_client_batch_scenarios": g(6),
         },
-        "rule": "for both tokio clients over an in-memory stream on a paused single-threaded runtime: n concurrent calls, every permutation of the n replies, one extra frame (unknown id / duplicate of reply j / notify reusing in-flight id j) at every position, delivered one by one or in one burst; batch_json under every reply order; AsyncClient replies injected while the request's write is blocked after 48+k bytes",
+        "rule": "blocking Client over loopback TCP with n caller threads (n <= 4, thorough 5): every reply permutation x extra frame x position, and batch_json under every reply order; for both tokio clients over an in-memory stream on a paused single-threaded runtime: n concurrent calls, every permutation of the n replies, one extra frame (unknown id / duplicate of reply j / notify reusing in-flight id j) at every position, delivered one by one or in one burst; batch_json under every reply order; AsyncClient replies injected while the request's write is blocked after 48+k bytes",
     });
     ctx.finish(
         "model_checking",
@@ -357,6 +493,8 @@ pub fn replay(case: &Value) -> Result<(), String> {
             Scenario::Perm { kind, n, perm, extra, pos, burst } => run_perm(*kind, *n, perm, *extra, *pos, *burst).await,
             Scenario::Batch { kind, n, perm } => run_batch(*kind, *n, perm).await,
             Scenario::Early { k, queued_behind } => run_early(*k, *queued_behind).await,
+            Scenario::PermBlocking { n, perm, extra, pos } => run_perm_blocking(*n, perm, *extra, *pos, false),
+            Scenario::BatchBlocking { n, perm } => run_perm_blocking(*n, perm, Extra::None, 0, true),
         }
     });
     if b.is_empty() { Ok(()) } else { Err(b.into_iter().map(|(k, w)| format!("{k}: {w}")).collect::<Vec<_>>().join("\n")) }
